@@ -811,13 +811,15 @@ def _attr_of_tos(e):
     return e.attr if isinstance(e, ast.Attribute) and isinstance(e.value, ast.Name) else None
 
 
-def _nonempty_on(test, attrs):
+def _nonempty_on(test, attrs, attr_of=None):
     """'T' / 'F': the outcome of ``test`` under which one of the attributes ``attrs`` holds non-empty text; None when
     the test says nothing about them."""
+    attr_of = attr_of or _attr_of_tos
+
     def is_attr(e):
         if isinstance(e, ast.Call) and isinstance(e.func, ast.Name) and e.func.id == 'len' and len(e.args) == 1:
             e = e.args[0]
-        return _attr_of_tos(e) in attrs
+        return attr_of(e) in attrs
     if is_attr(test):
         return 'T'
     if isinstance(test, ast.Compare) and len(test.ops) == 1 and is_attr(test.left) and isinstance(test.comparators[0], ast.Constant) \
@@ -874,10 +876,27 @@ def tok_11(ctx, rep):
     params = finder.params()
     assigned = {t.id for n in walk_own(finder.node) for t in ast.walk(n) if isinstance(t, ast.Name) and isinstance(t.ctx, ast.Store)}
     # the carried-over text attribute: what the finder returns when nothing matches / prepends to the match
+    # (read-only local copies of an attribute, `previous = tos.previous_lines`, stand for the attribute)
+    alias = {}
+    for n in walk_own(finder.node):
+        if isinstance(n, ast.Assign) and len(n.targets) == 1 and isinstance(n.targets[0], ast.Name) and _attr_of_tos(n.value):
+            nm = n.targets[0].id
+            alias[nm] = None if nm in alias else n.value.attr
+    alias = {k: v for k, v in alias.items() if v is not None and sum(
+        1 for x in walk_own(finder.node) if isinstance(x, ast.Name) and x.id == k and isinstance(x.ctx, ast.Store)) == 1}
+    _plain_attr = _attr_of_tos
+
+    def _attr_or_alias(e):
+        if isinstance(e, ast.Name) and e.id in alias:
+            return alias[e.id]
+        return _plain_attr(e)
     carried = set()
     for n in walk_own(finder.node):
-        if isinstance(n, ast.AugAssign) and _attr_of_tos(n.target):
+        if isinstance(n, ast.AugAssign) and _plain_attr(n.target):
             carried.add(n.target.attr)
+        if isinstance(n, ast.Assign) and len(n.targets) == 1 and _plain_attr(n.targets[0]) and isinstance(n.value, ast.BinOp) \
+                and isinstance(n.value.op, ast.Add) and _attr_or_alias(n.value.left) == n.targets[0].attr:
+            carried.add(n.targets[0].attr)
     # the match position: second argument of the .match() call on the line
     match_pos = None
     for n in walk_own(finder.node):
@@ -888,7 +907,7 @@ def tok_11(ctx, rep):
         raise AnalysisError('TOK-11: shape of the f-string text finder not recognised (match position %s, carried text %s)' % (match_pos, sorted(carried)))
 
     def good_store(st):
-        if not (isinstance(st, ast.Assign) and len(st.targets) == 1 and _attr_of_tos(st.targets[0]) == A):
+        if not (isinstance(st, ast.Assign) and len(st.targets) == 1 and _attr_or_alias(st.targets[0]) == A):
             return False
         v = st.value
         return isinstance(v, ast.Tuple) and len(v.elts) == 2 and isinstance(v.elts[0], ast.Name) and v.elts[0].id in params \
@@ -908,7 +927,7 @@ def tok_11(ctx, rep):
             v = a.value
             s = v.elts[0] if isinstance(v, ast.Tuple) and v.elts else v
             empty = s is None or (isinstance(s, ast.Constant) and not s.value)
-            is_carried = s is not None and _attr_of_tos(s) in carried
+            is_carried = s is not None and _attr_or_alias(s) in carried
             if not ok and not empty and not is_carried:
                 bad = state
             continue
@@ -918,7 +937,7 @@ def tok_11(ctx, rep):
             if lab == 'exc':
                 continue
             ok2 = ok
-            if node.kind == 'test' and _nonempty_on(a, carried) == lab:
+            if node.kind == 'test' and _nonempty_on(a, carried, _attr_or_alias) == lab:
                 ok2 = True
             nxt = (s2, ok2)
             if nxt not in seen:
